@@ -29,3 +29,36 @@ reg('C19', plan=plan_c19, level='proof', min_obligations=60,
                  'rounding of f32/f64 stays inside the stated tolerances (not checked)'],
     not_decided=['f32/f64 rounding error bounds (1e-5*max(1,|exact|), 1e-4 for inverse)'],
     design_ref='DESIGN.md §5 C19')
+
+# ------------------------------------------------------------------------------------------- C18
+MATH_INJECT = [('yuvxyb-math/src/pow_exp.rs', 'k_pow_exp.rs', 'verif_kani_pow_exp'),
+               ('yuvxyb-math/src/cbrtf.rs', 'k_cbrtf.rs', 'verif_kani_cbrtf')]
+def math_totality_harnesses():
+    return [H('exp2_total', domain='x: all 2^32 f32 bit patterns', desc='no value reaches to_int_unchecked non-finite/out of range; no overflow/shift trap',
+              miri=('yuvxyb-math', 'yuvxyb_math::powf(2.0, f(v0))')),
+            H('log2_total', domain='x: all f32'),
+            H('powf_total', domain='(x,y): all f32 x f32', miri=('yuvxyb-math', 'yuvxyb_math::powf(f(v0), f(v1))')),
+            H('expf_total', domain='x: all f32', miri=('yuvxyb-math', 'yuvxyb_math::expf(f(v0))')),
+            H('cbrtf_total', domain='x: all f32')]
+def plan_c18(tier, seed):
+    hs = math_totality_harnesses() + [
+        H('expf_saturates_high', domain='x in [89, 1e38]', desc='expf(x) == +inf'),
+        H('expf_saturates_low', domain='x in [-1e38, -88]', desc='expf(x) == 0'),
+        H('cbrtf_seed_is_odd', domain='x: all non-NaN f32', desc='bit-trick seed of -x is the negated seed of x'),
+    ]
+    exps = ['127', '120', '1', '254'] if tier == 'thorough' else []
+    for e in exps:
+        hs.append(H(f'cbrtf_odd_exp_{e}', bounded=f'optional: exponent fixed to {e}, 2^23 mantissas symbolic', timeout=900,
+                    domain=f'x = 2^({e}-127) * 1.m, all m', desc='cbrtf(-x) == -cbrtf(x) bit for bit'))
+    return {'kani': [{'crate_dir': 'yuvxyb-math', 'inject': MATH_INJECT, 'harnesses': hs, 'timeout': 2400}]}
+reg('C18', plan=plan_c18, level='proof', min_obligations=30,
+    title='fast math helpers: totality and saturation (accuracy clauses not decided)',
+    technique='Kani/CBMC loop-free harnesses over the full f32 domain of the real exp2/log2/powf/expf/cbrtf (bit-precise, complete)',
+    text='Complete bit-precise proof (no loop, full symbolic f32 inputs) that cbrtf, powf, expf and their private helpers are total: no panic, '
+         'no arithmetic/shift overflow, and the operand of the unchecked float->int conversion in exp2 is always finite and in range; '
+         'expf(x)=+inf on [89,1e38] and 0 on [-1e38,-88]. cbrtf oddness: seed symmetry proved for all inputs, full oddness only bounded per exponent. '
+         'The accuracy clauses (1 ulp, 2.5e-4+8e-6|y|, 1e-5) are NOT decided: no oracle for pow/exp/cbrt inside either verifier.',
+    note='Trusted: ' + TOOLS + '. Not decided: accuracy of the polynomial approximations against the transcendental functions; cbrtf oddness beyond the bounded exponents.',
+    assumptions=['CBMC float model is IEEE-754 binary32/binary64 round-to-nearest-even', 'cfg!(target_feature="fma") is false in the Kani build (unfused branch verified)'],
+    not_decided=['cbrtf within 1 ulp', 'powf relative error 2.5e-4+8e-6|y|', 'expf relative error 1e-5', 'cbrtf oddness for all exponents (bounded only)'],
+    design_ref='DESIGN.md §5 C18')
